@@ -292,6 +292,14 @@ func (p *Pipe) Close() error {
 	return err
 }
 
+// FailClose makes Close report err (the transport is closed all the same), like a TLS
+// connection that cannot deliver its close notification any more.
+func (p *Pipe) FailClose(err error) {
+	p.mu.Lock()
+	p.closeErr = err
+	p.mu.Unlock()
+}
+
 func (p *Pipe) Closed() bool {
 	p.mu.Lock()
 	defer p.mu.Unlock()
